@@ -120,7 +120,12 @@ def check_case(ctx, case, drv, n=[0]):
         if not ok:
             ctx.case(case, nontrivial=False)
             ctx.count("fresh-compile-raised:" + m1)
-            # the property is about models that compile; a second call must fail the same way, not differently
+            # the property is about models that compile: with caching off the same failure is expected
+            rok, rm, rmsg = G.reference_compile(api, d, name, o)
+            if rok:
+                ctx.violation("transfer_model(%s) raised %s (%s) for a model that compiles with caching off" % (mode, m1, msg[:80]),
+                              case, expected="a model and a cache file", observed=m1)
+                return
             ok2, m2, _ = G.outcome(api.transfer_model, d, name, dict(o))
             if ok2:
                 ctx.violation("transfer_model raised %s on the first call and returned a model on the second" % m1, case,
@@ -318,6 +323,13 @@ def gen_case_vecparam(rng):
             "seed": rng.randrange(1000), "stream": "vector-parameter"}
 
 
+def gen_case_arraysym(rng):
+    """Separate stream (finding C19-F3): array attributes with symbolic elements."""
+    gm = G.gen_model(rng, want=["array", "array-symbolic"])
+    return {"name": gm["name"], "text": gm["text"], "features": gm["features"], "opts": G.gen_options(rng), "mode": "cache",
+            "seed": rng.randrange(1000), "stream": "array-symbolic"}
+
+
 def fixed_cases():
     out = []
     for text, opts in TARGETED:
@@ -345,6 +357,9 @@ def run(ctx):
     for _ in range(5 if quick else 150):
         ctx.count("stream:vector-parameter")
         check_case(ctx, gen_case_vecparam(ctx.rng), drv)
+    for _ in range(6 if quick else 150):
+        ctx.count("stream:array-symbolic")
+        check_case(ctx, gen_case_arraysym(ctx.rng), drv)
     n_cache, n_codegen = (400, 6) if quick else (4000, 120)
     # codegen cases are spread over the run so that a time-out keeps both kinds
     every = max(1, n_cache // max(1, n_codegen))
